@@ -539,7 +539,13 @@ func (g *gen) list(prefix string, level, depth int, menu bool) *node {
 			li.kids = g.inline(u, inlineSpec{words: g.between(1, 6)})
 			li.kids = append(li.kids, g.para(kp+">"))
 		case form == 8:
-			switch g.r.Intn(3) {
+			switch g.r.Intn(4) {
+			case 3:
+				// a table inside a list item (with lead-in text), more items following
+				g.feat("li>table")
+				u := g.newUnit(kp, Content)
+				li.kids = g.inline(u, inlineSpec{words: g.between(1, 4)})
+				li.kids = append(li.kids, g.table(kp+">", depth+1))
 			case 0:
 				g.feat("li>div")
 				u := g.newUnit(kp+">div", Content)
